@@ -15,6 +15,24 @@ CHECKS = {
     ),
 }
 
+CHECKS["C33"] = (
+    "def-use slice of get_conversion_factor's result + term normal form (ratio of one factor table) + "
+    "writer/reader table agreement between unit categories, validate_units aliases and the factor table",
+    "Decides three necessary conditions of compose/invert for every pair of units at once: the same-category "
+    "factor is data-dependent on both units and has the normal form table[canon(new)]/table[canon(old)]; every "
+    "unit of a convertible category canonicalises to a key of the factor table (alias comparisons are live); "
+    "LinearAxis.convert_units scales sampling and offset by the factor from the receiver's own units.",
+    "Trusts float arithmetic; the cross-category branch (1/Å -> mrad) is outside the property.",
+)
+
+CHECKS["C02"] = (
+    "reaching definitions over the CFG: loop-carried flow dependence of the wave state across the "
+    "potential-configuration loop; fresh-copy requirement on the killing definition",
+    "Decides the clause 'every configuration starts from the same incident wave' for all potentials, "
+    "detectors and chunkings at once.",
+    "Numerical equality of the multislice results is not decided.",
+)
+
 NOT_APPLICABLE = {
     "C25": "consistency of each parametrization's real- and reciprocal-space forms is an analytic Fourier-"
            "transform identity between tabulated-coefficient kernels plus monotonicity over table data; no "
